@@ -30,7 +30,9 @@ fn gen_base(t: &mut Tape) -> Scenario {
     let mut raw = RawSpec::default();
     match ep {
         EP_LZMA | EP_STREAM => {
-            let b = gen_lzma(t, 0, 1200);
+            // the streaming decoder hands bytes to the sink during write() only when
+            // its window wraps: a third of its inputs span several windows
+            let b = if ep == EP_STREAM && t.below(3) == 0 { gen_lzma(t, 0, 20_000) } else { gen_lzma(t, 0, 1200) };
             // all three header options
             opts.mode = t.below(3);
             let input = match opts.mode {
@@ -364,6 +366,9 @@ impl C12 {
             if o.short_writes > 0 {
                 ctx.stats.hit("probe.short_writes_in_fault_free_run");
             }
+        }
+        if fired && sc.i("ep") == EP_STREAM && o.calls.iter().any(|(op, _, f)| *f && matches!(*op, OP_WRITE | OP_WRITE_ALL | OP_WRITE_N)) {
+            ctx.stats.hit("probe.sink_fault_fired_inside_stream_write");
         }
         if fired {
             ctx.stats.hit("arm.fault_fired");
